@@ -11,7 +11,7 @@ META = {
     "design_ref": "7/C13",
 }
 FAMS = ["writer"]
-INVS = ["InvNoWriteAfterFail", "InvReturnsE", "InvNoHostPanic", "InvNilWithoutFailure", "InvDeterministic", "InvFailAtK"]
+INVS = ["InvNoWriteAfterFail", "InvReturnsE", "InvNoHostPanic", "InvNilWithoutFailure", "InvDeterministic", "InvStepAgrees", "InvFailAtK"]
 
 # Demonstrated on the unchanged /repo (see the report): run.go OpReturn raises the Markdown converter's error as
 # fatalError -> Run panics into the host with "fatal error: E" instead of returning E.
@@ -23,9 +23,9 @@ PROPOSED_KNOWN = [
 ALL_MODES = ["fail", "short", "sticky", "fail+sw", "short+sw", "sticky+sw"]
 
 
-def mc(ctx, step, conv_fatal, maxlen, maxlenr, maxlenm=0, coverage=False, invs=INVS):
+def mc(ctx, step, conv_fatal, maxlen, maxlenr, maxlenm=0, coverage=False, invs=INVS, export=False):
     wd = ctx.stage(step, FAMS)
-    consts = {"Shapes": "<-MCShapes", "ConvFatal": conv_fatal, "MaxLen": maxlen, "MaxLenR": maxlenr, "MaxLenM": maxlenm, "MaxDepth": 2}
+    consts = {"Shapes": "<-MCShapes", "ConvFatal": conv_fatal, "MaxLen": maxlen, "MaxLenR": maxlenr, "MaxLenM": maxlenm, "MaxDepth": 2, "Export": export}
     rig.write_cfg(wd / "MC_Writer.cfg", constants=consts, invariants=invs)
     r = ctx.tlc(wd, "MC_Writer", workers=8, timeout=1500, coverage=coverage)
     return wd, r, consts
@@ -34,7 +34,7 @@ def mc(ctx, step, conv_fatal, maxlen, maxlenr, maxlenm=0, coverage=False, invs=I
 def model_check(ctx):
     # 1. the mechanism with the converter's error raised as outError satisfies the property for every program, k, stickiness
     maxlen, maxlenr, maxlenm = ctx.pick((4, 5, 0), (5, 6, 7))
-    wd, r, consts = mc(ctx, "mc", False, maxlen, maxlenr, maxlenm)
+    wd, r, consts = mc(ctx, "mc", False, maxlen, maxlenr, maxlenm, export=True)
     if not r.ok:
         raise Infra(f"MC_Writer (outError variant) did not pass: {wd}/MC_Writer.out\n" + rig.tail(r.out, 25))
     ctx.cov.update(states=r.distinct, transitions=r.generated, mc_wall_s=round(r.wall, 1), mc_invariants=INVS,
